@@ -555,6 +555,7 @@ func TestCheck(t *testing.T) {
 		}
 	}
 	shapeCases(t, s, thorough)
+	seekSeqCases(t, s, thorough)
 	s.Finish()
 }
 
